@@ -2172,7 +2172,8 @@ size_t ZSTD_decompressStream(ZSTD_DStream* zds, ZSTD_outBuffer* output, ZSTD_inB
             }   }
 #endif
             {   size_t const hSize = ZSTD_getFrameHeader_advanced(&zds->fParams, zds->headerBuffer, zds->lhSize, zds->format);
-                if (zds->refMultipleDDicts && zds->ddictSet) {
+                if (hSize == 0 && zds->refMultipleDDicts && zds->ddictSet) {
+                    /* only a complete header names this frame's dictionary : before that, fParams still are the previous frame's */
                     ZSTD_DCtx_selectFrameDDict(zds);
                 }
                 if (ZSTD_isError(hSize)) {
